@@ -85,7 +85,12 @@ void apply_dict_ops(const TSOutputView &o, DateTime t, const JV &ops) {
 // whole-value write of a partially populated bundle value: {"<field index>": <nested spec or scalar>}; absent fields stay unset
 Value build_partial_value(const TSValueTypeMetaData *schema, const JV &v) {
     if (schema->kind == TSTypeKind::TS) return value_from_json(schema->value_type, v);
-    if (schema->kind != TSTypeKind::TSB || !v.is_obj()) throw std::runtime_error("harness: setv only populates TS / TSB positions");
+    if (schema->kind == TSTypeKind::TSS) {      // a whole set of ints (possibly empty)
+        std::vector<Int> el;
+        for (auto &e : v.a) el.emplace_back(Int{e.as_int()});
+        return stdlib::make_set<Int>(el.begin(), el.end());
+    }
+    if (schema->kind != TSTypeKind::TSB || !v.is_obj()) throw std::runtime_error("harness: setv only populates TS / TSS / TSB positions");
     BundleBuilder bb{ValuePlanFactory::instance().type_for(schema->value_schema)};
     for (auto &kv : v.o) {
         const std::size_t index = (std::size_t)std::stoul(kv.first);
@@ -98,6 +103,12 @@ Value build_partial_value(const TSValueTypeMetaData *schema, const JV &v) {
 void apply_op(const TSOutputView &o, DateTime t, const JV &op) {
     const std::string &k = op.at("k").as_str();
     if (k == "setv") {
+        Value whole = build_partial_value(o.schema(), op.at("v"));
+        if (op.bool_or("move", false)) (void)o.begin_mutation(t).move_value_from(std::move(whole));
+        else (void)o.begin_mutation(t).copy_value_from(whole.view());
+    }
+    else if (k == "sets") {
+        // whole-set write (TSS[int]): the new contents replace the old ones; copy or move flavour
         Value whole = build_partial_value(o.schema(), op.at("v"));
         if (op.bool_or("move", false)) (void)o.begin_mutation(t).move_value_from(std::move(whole));
         else (void)o.begin_mutation(t).copy_value_from(whole.view());
